@@ -399,9 +399,9 @@ class Gen:
             c, p = self.quals()
             at = ('ty', rt[1], c, p, rt[4])
             if sym == '()':
+                # (an operator takes at most one argument in this dialect)
                 members += [('op', '()', self.ret(tp, True), [('arg', self.any_type(1, tp, True), 'i', None)], True),
-                            ('op', '()', self.ret(tp, True), [('arg', self.any_type(1, tp, True), 'i', None),
-                                                             ('arg', self.any_type(1, tp, True), 'j', None)], True)]
+                            ('op', '()', self.ret(tp, True), [('arg', self.any_type(1, tp, True), 'j', None)], True)]
             else:
                 pair = [('op', sym, ('r1', rt), [], True), ('op', sym, ('r1', rt), [('arg', at, 'rhs', None)], True)]
                 r.shuffle(pair)
